@@ -223,7 +223,7 @@ func (c *vc12Case) checkErrs(when string) {
 	}
 }
 
-func vc12NewCase(t *rapid.T, st *vstat.Stats, srv *vc12Srv, base string, nClients int) (c *vc12Case) {
+func vc12NewCase(t *rapid.T, st *vstat.Stats, srv *vc12Srv, base string, nClients int, opts ...func(*vc12SideConf)) (c *vc12Case) {
 	c = &vc12Case{
 		t: t, st: st, srv: srv,
 		conf:    &vc12SideConf{CacheCount: rapid.SampledFrom(vc12CacheCounts).Draw(t, "cachecount")},
@@ -234,6 +234,10 @@ func vc12NewCase(t *rapid.T, st *vstat.Stats, srv *vc12Srv, base string, nClient
 	}
 	for k := range c.conf.HPRepl {
 		c.conf.HPRepl[k] = rapid.SampledFrom(vc12Repls).Draw(t, "hprepl")
+	}
+
+	for _, o := range opts {
+		o(c.conf)
 	}
 
 	var err error
@@ -442,7 +446,14 @@ func (c *vc12Case) refreshHP() {
 	}
 
 	nw := c.w.clone()
-	switch hosts := nw.HP[k]; rapid.IntRange(0, 3).Draw(t, "hpmut") {
+	switch hosts := nw.HP[k]; rapid.IntRange(0, 6).Draw(t, "hpmut") {
+	case 4, 5, 6:
+		// Replace some copies of one name by as many copies of another, after
+		// both names have been asked: the number of lines stays, and so does
+		// anything symmetric that is computed from an even number of copies.
+		if !c.replaceCopies(k, nw) {
+			nw.HP[k] = vc12DrawHashHosts(t)
+		}
 	case 0:
 		nw.HP[k] = vc12DrawHashHosts(t)
 	case 1:
@@ -487,6 +498,75 @@ func (c *vc12Case) refreshHP() {
 	}
 }
 
+// replaceCopies replaces copies of a listed name in nw.HP[k] by copies of
+// another name and warms the result cache for both names first.  It reports
+// whether there was a name to replace.
+func (c *vc12Case) replaceCopies(k int, nw *vc12World) (ok bool) {
+	t := c.t
+	hosts := nw.HP[k]
+	if len(hosts) == 0 {
+		return false
+	}
+
+	a := rapid.SampledFrom(hosts).Draw(t, "replaced")
+	count := 0
+	for _, h := range hosts {
+		if h == a {
+			count++
+		}
+	}
+
+	var others []string
+	for _, h := range vc12Hosts {
+		if h != a {
+			others = append(others, h)
+		}
+	}
+
+	b := rapid.SampledFrom(others).Draw(t, "replacement")
+	n := rapid.IntRange(1, count).Draw(t, "copies")
+
+	// Requests for both names from a requester that uses this filter, if there
+	// is one, so that their results are in the cache when the list changes.
+	warm := false
+	for ri, r := range c.reqs {
+		if !r.hpEnabled(k) {
+			continue
+		}
+
+		for _, h := range []string{a, b} {
+			q := vc12Q{Host: h, QT: rapid.SampledFrom([]uint16{dns.TypeA, dns.TypeAAAA, dns.TypeHTTPS}).Draw(t, "warmqt"), QC: dns.ClassINET}
+			c.asked = append(c.asked, q)
+			vc12DrawFlags(t, &q, false)
+			c.ask(ri, q, "", false)
+		}
+
+		warm = true
+
+		break
+	}
+
+	out := slices.Clone(hosts)
+	left := n
+	for i, h := range out {
+		if h == a && left > 0 {
+			out[i] = b
+			left--
+		}
+	}
+
+	nw.HP[k] = out
+	cls := fmt.Sprintf("refresh-replacing-%d-copies", n)
+	c.st.Class(cls)
+	if n%2 == 0 && warm {
+		c.st.Class("refresh-replacing-even-multiplicity-entries-with-warm-cache")
+	}
+
+	c.logf("REPLACING %d of %d copies of %s by %s in hash list %d (requests for both sent first: %t)", n, count, a, b, k, warm)
+
+	return true
+}
+
 // rejectedHP serves hash list k in a form the filter cannot take and refreshes
 // it on both sides.  Whatever the filter then serves without its result cache,
 // it must serve with it.
@@ -509,8 +589,8 @@ func (c *vc12Case) rejectedHP(k int) {
 	}
 
 	h := rapid.SampledFrom(cand).Draw(t, "toggle")
-	if i := slices.Index(prefix, h); i >= 0 {
-		prefix = slices.Delete(prefix, i, i+1)
+	if slices.Contains(prefix, h) {
+		prefix = slices.DeleteFunc(prefix, func(e string) bool { return e == h })
 	} else {
 		prefix = append(prefix, h)
 	}
@@ -736,7 +816,6 @@ func vc12HPKey(k int, q *vc12Q) string {
 func (c *vc12Case) query(exchange bool) {
 	t := c.t
 	ri := rapid.IntRange(0, len(c.reqs)-1).Draw(t, "requester")
-	r := c.reqs[ri]
 
 	var q vc12Q
 	near := ""
@@ -789,7 +868,13 @@ func (c *vc12Case) query(exchange bool) {
 	}
 
 	vc12DrawFlags(t, &q, false)
+	c.ask(ri, q, near, exchange)
+}
 
+// ask sends q from requester ri through both storages and compares.
+func (c *vc12Case) ask(ri int, q vc12Q, near string, exchange bool) {
+	t := c.t
+	r := c.reqs[ri]
 	ctx := context.Background()
 	// A profile or device with filtering switched off gets the nil
 	// configuration, and with it the empty filter.
@@ -1054,7 +1139,7 @@ func TestVerifC12Histories(t *testing.T) {
 		"exchange-request-passed-response-filtered", "exchange-request-allowed-response-filtered", "exchange-both-stages-filtered",
 		"op-refresh-hp-rejected", "op-refresh-storage-rejected", "key-asked-before-rejected-hp-refresh-that-changes-it",
 		"op-refresh-hp-from-file", "filtering-off-nil-config", "resp-target-mixed-case", "same-target-two-spellings-while-cached",
-		"two-spellings-lower-first", "two-spellings-lower-second")
+		"two-spellings-lower-first", "two-spellings-lower-second", "refresh-replacing-even-multiplicity-entries-with-warm-cache")
 	st.Finish(t)
 
 	srv := vc12NewSrv(t)
